@@ -89,17 +89,17 @@ Definition holds1 (c : case1) : bool := spec_b (rm (c_mt c)) ectab (c_in c) (c_o
 Definition agrees (c : case) : bool := forallb agrees1 c.
 Definition holds (c : case) : bool := forallb holds1 c.
 
-(* finding classes (consulted only when holds is false).  Both findings are FIXED in /repo
-   (findings/C10.json), so the driver reports a case of either class as a VIOLATION again; the
+(* finding classes (consulted only when holds is false).  All three findings are FIXED in /repo
+   (findings/C10.json), so the driver reports a case of any class as a VIOLATION again; the
    class only names the regression:
    1 = C10-F1 (a4e3dbdd): through Server._authn_response Policy.restrict raised MissingValue and
        the outcome breaks the property (before the repair: the unfiltered identity was put into
        the assertion, best_effort=False ignored)
    2 = C10-F2 (47cc754e): entity categories configured but the Policy has no metadata store
        (before the repair: the filter was skipped)
-   3 = C10-F5 (OPEN): an ONLY_REQUIRED entity category is configured and a REQUIRED RequestedAttribute's
-       FriendlyName, read before Name + NameFormat, names another attribute (Policy.get_entity_categories reads the
-       label first).  Looked at LAST, so that it hides no regression of the repaired classes: a call whose outcome
+   3 = C10-F5 (4be62a1c, FIXED like the other two: a case of this class is a VIOLATION again): an ONLY_REQUIRED
+       entity category is configured and a REQUIRED RequestedAttribute's FriendlyName, read before Name +
+       NameFormat, names another attribute (before the repair Policy.get_entity_categories read the label first).  Looked at LAST, so that it hides no regression of the repaired classes: a call whose outcome
        breaks the property BECAUSE of C10-F5 is in neither (with the categories in force Policy.restrict never raises
        MissingValue; without a store the requester is in no category and only the always-released keys, which
        ignore the required attributes, grant anything). *)
